@@ -183,11 +183,15 @@ static long run_history(const Args &a, uint64_t seqseed, long cs, AllocState &st
 				try { res = T->remove_key(k.c_str()); } catch (std::exception &e) { threw = true; }
 				Snap af = snap(*T); if (threw) { if (!snap_eq(af, before)) fail("remove_key:failed-call-changed-the-store"); if (st.failed == failed0) fail("remove_key:threw-without-fault"); } else { if (res != had) fail("remove_key:wrong-return-value"); if (af.aux.size() + (had ? 1 : 0) != before.aux.size() || T->get_aux_value(k.c_str())) fail("remove_key:store-inconsistent-after-removal"); }
 				break; }
-			case 9: { if (!populated || before.coef.size() > 600) break; unsigned dim = (unsigned)r.below(before.ndim); int nk = r.range(2, 3); if (before.order[dim] + nk > 6) break; std::vector<double> kn; double y = -0.2; for (int i = 0; i < nk; i++) { kn.push_back(y); y += 0.1 + 0.2 * r.U(); }
+			case 9: { if (!populated || r.coin(0.15)) { // invalid convolution requests (empty table, dimension out of range, kernel too small) must throw and change nothing
+					double kn[3] = {-0.1, 0.0, 0.3}; uint32_t dim = populated ? before.ndim + (uint32_t)r.below(3) : (uint32_t)r.below(2); size_t nk = populated && r.coin(0.3) ? r.below(2) : 3; if (populated && nk < 2) dim = (uint32_t)r.below(before.ndim);
+					hist += "convolve" + std::to_string(ti) + "(invalid);"; phase_log("convolve (invalid arguments)"); try { T->convolve(dim, kn, nk); } catch (std::exception &e) { threw = true; }
+					if (!threw) fail("convolve:invalid-arguments-accepted"); else if (!snap_eq(snap(*T), before)) fail("convolve:rejected-call-changed-the-table"); break; }
+				if (before.coef.size() > 600) break; unsigned dim = (unsigned)r.below(before.ndim); int nk = r.range(2, 3); if (before.order[dim] + nk > 6) break; std::vector<double> kn; double y = -0.2; for (int i = 0; i < nk; i++) { kn.push_back(y); y += 0.1 + 0.2 * r.U(); }
 				hist += "convolve" + std::to_string(ti) + ";"; phase_log("convolve"); try { T->convolve(dim, kn.data(), (size_t)nk); } catch (std::exception &e) { threw = true; }
 				if (threw) { post_failed("convolve"); if (st.failed == failed0) fail("convolve:threw-without-fault"); } else { if (T->get_order(dim) != before.order[dim] + nk - 1) fail("convolve:order-not-raised"); }
 				break; }
-			case 10: { if (!populated) break; std::vector<size_t> p(before.ndim); std::iota(p.begin(), p.end(), 0); for (int i = (int)before.ndim - 1; i > 0; i--) std::swap(p[i], p[r.below(i + 1)]); bool valid = r.coin(0.7); if (!valid) p[r.below(before.ndim)] = before.ndim + r.below(2);
+			case 10: { if (!populated) { hist += "permute" + std::to_string(ti) + "(empty-table);"; phase_log("permuteDimensions on empty table"); std::vector<size_t> p0; if (r.coin(0.5)) p0.push_back(0); try { T->permuteDimensions(p0); } catch (std::exception &e) { threw = true; } if (!p0.empty() && !threw) fail("permuteDimensions:wrong-length-accepted-on-empty-table"); if (!snap_eq(snap(*T), before)) fail("permuteDimensions:changed-an-empty-table"); break; } std::vector<size_t> p(before.ndim); std::iota(p.begin(), p.end(), 0); for (int i = (int)before.ndim - 1; i > 0; i--) std::swap(p[i], p[r.below(i + 1)]); bool valid = r.coin(0.7); if (!valid) p[r.below(before.ndim)] = before.ndim + r.below(2);
 				hist += std::string("permute") + std::to_string(ti) + (valid ? "(valid);" : "(invalid);"); phase_log("permuteDimensions"); try { T->permuteDimensions(p); } catch (std::exception &e) { threw = true; }
 				if (threw) { if (!snap_eq(snap(*T), before)) fail("permuteDimensions:failed-call-changed-the-table"); if (valid) fail("permuteDimensions:valid-permutation-rejected"); } else if (!valid) fail("permuteDimensions:invalid-permutation-accepted");
 				break; }
@@ -207,7 +211,8 @@ static long run_history(const Args &a, uint64_t seqseed, long cs, AllocState &st
 				if (!threw) { ATable R{CA<void>(&st)}; bool rd = true; try { if (mem) R.read_fits_mem(w.first, w.second); else R.read_fits(outp); } catch (std::exception &e) { rd = false; } if (rd && !(R == *T) ) { bool nan = false; for (float c : before.coef) if (std::isnan(c)) nan = true; if (!nan) fail("write:written-table-reads-back-different"); } if (!rd && st.failed == failed0) fail("write:written-table-unreadable"); }
 				free(w.first); unlink(outp.c_str()); if (!snap_eq(snap(*T), before)) fail("write:writing-changed-the-table"); break; }
 			case 17: case 18: { hist += "use" + std::to_string(ti) + ";"; phase_log("getters+evaluation"); std::string wf = wellformed(*T); if (!wf.empty()) fail("state:table-not-well-formed:" + wf); use_table(*T, r); break; }
-			default: { if (!populated || before.coef.size() > 600) break; hist += "grideval" + std::to_string(ti) + ";"; phase_log("grideval"); std::vector<std::vector<double>> g(before.ndim); for (unsigned d = 0; d < before.ndim; d++) for (int i = 0; i < 2; i++) g[d].push_back(before.knots[d][0] + (before.knots[d].back() - before.knots[d][0]) * r.U()); try { auto res = T->grideval(g); } catch (std::exception &e) { threw = true; } if (threw && st.failed == failed0) fail("grideval:threw-without-fault"); if (!snap_eq(snap(*T), before)) fail("grideval:changed-the-table"); break; }
+			default: { if (!populated) { hist += "grideval" + std::to_string(ti) + "(empty-table);"; phase_log("grideval on empty table"); std::vector<std::vector<double>> g0; try { auto res = T->grideval(g0); } catch (std::exception &e) { threw = true; } if (!threw) fail("grideval:empty-table-accepted"); break; }
+				if (before.coef.size() > 600) break; hist += "grideval" + std::to_string(ti) + ";"; phase_log("grideval"); std::vector<std::vector<double>> g(before.ndim); for (unsigned d = 0; d < before.ndim; d++) for (int i = 0; i < 2; i++) g[d].push_back(before.knots[d][0] + (before.knots[d].back() - before.knots[d][0]) * r.U()); try { auto res = T->grideval(g); } catch (std::exception &e) { threw = true; } if (threw && st.failed == failed0) fail("grideval:threw-without-fault"); if (!snap_eq(snap(*T), before)) fail("grideval:changed-the-table"); break; }
 			}
 		} catch (std::bad_alloc &e) { if (!faulted || st.failed == failed0) fail("bad_alloc-escaped-without-injected-fault"); else { if (!T) T = fresh(); hist += "[bad_alloc];"; for (auto *&o : obj) if (!o) o = fresh(); } }
 		catch (std::exception &e) { fail(std::string("unexpected-exception:") + std::string(e.what()).substr(0, 60)); for (auto *&o : obj) if (!o) o = fresh(); }
